@@ -95,6 +95,64 @@ def run(tier, replay):
             exhaustive = False
         for v in rr["violations"]:
             ck.violation(v["key"], v["what"], {"sequence": v["seq"], "phase": rr["phase"]})
+    # ---- argument-collision schedule: a value cached or left behind by one primitive call must not leak into the next call
+    #      that shares one argument with it.  For every pair of call sites of the extracted schemes that agree on one
+    #      literal argument and differ in another, the decays [B, A, B] are generated back to back in one process with the
+    #      same plan and stream for both B: the two B events must be bit-identical (and agree with the reference).
+    import c01
+    import catalogue
+    import schemes as sch
+    S = sch.Schemes()
+    parents = {chain[0][0]: base for base, chain in S.bkg_names().items()}
+    pub = {n.split("+")[0]: n for n in catalogue.lis_background()}
+    pairs = S.argument_collisions(sorted(parents), per_group=1 if tier != "thorough" else 3)
+    rng = __import__("random").Random(ck.seed)
+    if tier != "thorough" and len(pairs) > 1500:
+        keep = [p_ for p_ in pairs if p_[2].startswith("beta")]
+        rest = [p_ for p_ in pairs if not p_[2].startswith("beta")]
+        pairs = keep + rng.sample(rest, max(0, 1500 - len(keep)))
+    wit = {k: dict(S.witness_paths(k)) for k in parents}
+    jobs = []
+    for n_, (a_, b_, prim, pos) in enumerate(pairs):
+        def job(site, tag, seed):
+            k, ei, ij = site
+            p_ = wit[k][ei]
+            # make the transition primitives take the gamma outcome so that the call sequence is fixed by the plan
+            return sch.bjob("c%d.%s" % (n_, tag), pub.get(parents[k], parents[k]), seed, [S.plan(k, p_)])
+        sa, sb = 1000 + 2 * n_, 1001 + 2 * n_
+        jobs += [job(b_, "B1", sb), job(a_, "A", sa), job(b_, "B2", sb), job(a_, "A2", sa)]
+    cexe = c01.cosim_exe()
+    rc, out = vlib.sh([cexe], input="\n".join(jobs) + "\n", timeout=1800, env=vlib.harness_env("plain"))
+    cres = {}
+    for l in out.splitlines():
+        if l.startswith("{"):
+            try:
+                j_ = json.loads(l)
+                cres[j_["id"]] = j_
+            except ValueError:
+                pass
+    if rc != 0:
+        ck.violation("crash:collision-schedule", "co-simulation harness died in the collision schedule (rc=%s)" % rc, None)
+    ncol = 0
+    for n_, (a_, b_, prim, pos) in enumerate(pairs):
+        for x, y, site, other in (("B1", "B2", b_, a_), ("A", "A2", a_, b_)):
+            r1, r2 = cres.get("c%d.%s" % (n_, x)), cres.get("c%d.%s" % (n_, y))
+            if not r1 or not r2:
+                continue
+            ncol += 1
+            if r1["fp"] != r2["fp"] or r1["ndraws"] != r2["ndraws"]:
+                ck.violation("history-dependent:%s:after:%s" % (prim, prim),
+                             "the same %s decay (same plan, same stream) gives a different event when a %s decay with an equal argument #%d of %s was "
+                             "generated in between: %s vs %s" % (parents[site[0]], parents[other[0]], pos, prim, r1["sig"][:120], r2["sig"][:120]),
+                             {"jobs": [j for j in jobs if j.split()[1].startswith("c%d." % n_)]})
+            for r_ in (r1, r2):
+                if r_["cls"] not in ("agree", "y90-pair-deviation", "knife-edge-excluded"):
+                    ck.violation("collision:%s:%s" % (parents[site[0]], r_["cls"]),
+                                 "in the collision schedule the %s decay differs from the reference (%s): %s" % (parents[site[0]], r_["cls"], r_["detail"][:200]),
+                                 {"jobs": [j for j in jobs if j.split()[1].startswith("c%d." % n_)]})
+    ck.set("argument_collision_pairs", len(pairs))
+    ck.set("collision_comparisons", ncol)
+    ck.add("evaluations", len(jobs))
     ck.set("traces_validated_against_impl", ck.cov.get("evaluations", 0))
     ck.set("distinct_nontrivial", ck.cov.get("state_action_pairs_executed", 0))
     ck.set("exhaustive", exhaustive)
